@@ -39,6 +39,7 @@ def generate(rng, tier):
             g = _gaps(segs)
             c = rng.choice([0, 1, 2, 3]) if not g or rng.random() < 0.3 else max(0, rng.choice(g) + rng.choice([-1, 0, 1]))
             cases.append({"regime": regime, "segs": segs, "collar": c})
+    cases += gen.far_copies(rng, cases, ['segs'], (400 if tier == "thorough" else 60))
     return {"cases": cases, "meta": {"exhaustive": True, "small_scope_max_segments": k,
                                      "sizes": gen.stats(cases, {"n_segments": lambda c: len(c["segs"]),
                                                                 "collar": lambda c: min(c["collar"], 20)})}}
